@@ -374,6 +374,26 @@ def alias_rules(check):
                         check.violation("BC-ALIAS", f.qualname, "the interior face state handed to the boundary function is a view (slice index), and %s changes it in place: `%s`" % (via, text),
                                         "%s:%d" % (f.module.relpath, ln), key="view")
                         break
+        # ... and the caller's parameter dictionary of a boundary is an input: one dictionary serves every evaluation, every
+        # face, and often several boundaries; an entry written by the first evaluation (a cached default) decides the later ones
+        nb = badp = 0
+        seenf = set()
+        for ci in _model_classes(proj):
+            reg = ci.registries.get("_bcdict")
+            for f in (reg["entries"].values() if reg else ()):
+                if f.qualname in seenf or len(f.params) < 4:
+                    continue
+                seenf.add(f.qualname)
+                nb += 1
+                pname = f.params[3]
+                for o, (ln, text, via, kind) in an.summ[f.qualname].mut.items():
+                    if kind == "inplace" and o.startswith("P:" + pname):
+                        badp += 1
+                        check.violation("BC-PARAM-PURE", f.qualname, "the boundary function writes into the parameter dictionary the user attached to the boundary (`%s`, line %d%s): the value stored by the first evaluation (computed from that call's face data) is what every later evaluation -- other faces, other boundaries sharing the dictionary, another mesh -- reads back"
+                                        % (text, ln, (", through %s" % via) if via else ""), "%s:%d" % (f.module.relpath, ln), key="mutates-param")
+        check.floor("registered boundary functions", nb, 10)
+        if not badp:
+            check.ok("BC-PARAM-PURE", "%d registered boundary functions" % nb, "none changes its parameter dictionary in place")
         check.floor("calc_bc functions", n, 2)
         if not bad:
             check.ok("BC-ALIAS", "%d calc_bc functions" % n, "no boundary result is overwritten through its argument list before use, and no boundary function changes a view of the interior state; built-in example: 1 overwritten argument list reported, its fresh-list twin silent")
